@@ -27,7 +27,7 @@ DECIDING = ['exports_checked', 'slots_checked', 'exports_crossing_reserved_range
 ASSUMPTIONS = ['gfortran -fcheck=all -g -fbacktrace via FFLAGS: a Fortran run-time error aborts the case process and is reported as violation']
 CASE_TIMEOUT = 600
 WALL_BUDGET = {'quick': 1500, 'thorough': 14000}
-FUNCS = ('sin', 'cos', 'tanh', 'sigmoid')
+FUNCS = ('sin', 'cos', 'tanh', 'sigmoid', 'absv')
 
 
 def plan(tier, seed):
